@@ -13,7 +13,10 @@ RULE = ("exhaustive: all strings up to length 6 (quick) / 7 (thorough) over {a, 
         "tokeniser's output, and both forms go through two parsers (strict + lenient, a format whose option names occur in the "
         "lists) and the DefaultResolver of a 2-level application) and an inexpressible one (model = implementation only); long "
         "inputs of 50..5000 characters built from repeated units ('\", \\\\, \"a', ' \", spaces: deep quote nesting); argv lists "
-        "with '--' at every position; the str.isspace() table computed by the model; non-trivial = string with a quote or "
+        "with '--' at every position and lists of <= 3 tokens that only look like '--' (' --', '-- ', '--\\t', '---', an em dash); "
+        "2 % of the token lists and 10 % of the unquoted word lists carry one LONG token (64 .. 5000 characters: round trip / "
+        "split demanded there too); every string is also split by ONE TokenParser object that has split other strings before "
+        "(one ending inside a quotation) - same tokens demanded; the str.isspace() table computed by the model; non-trivial = string with a quote or "
         "backslash, or >= 2 tokens; distinct by string / token list")
 TRUSTED = ["parser/resolver indistinguishability of StringArgs and ArgvArgs is checked by running both forms through the same parsers "
            "and the same resolver (testing); the Coq statement string_and_argv_indistinguishable holds by construction of the model "
